@@ -535,7 +535,7 @@ def gen_fields_case(rng):
     cls = rng.choice(CLASSES)
     c, f = gen_base(rng, cls)
     sub, argv, form = mutate(rng, c, cls, f)
-    out = dict(c, mutation=cls, sub=sub, form=form, argv=argv)
+    out = dict(c, mutation=cls, sub=sub, form=form, argv=argv, valid_argv=list(c["argv"]))
     if f is not None:
         out["target"] = f["name"]
     return out
@@ -779,7 +779,13 @@ def inst_fields(inst):
     return [[f.name, sp.cv(getattr(inst, f.name))] for f in dataclasses.fields(inst)]
 
 
-def run_parse(c, argv, postponed=False):
+def _outcome(r, attr="config"):
+    if r["o"] == "ok":
+        return {"o": "ok", "fields": inst_fields(getattr(r["value"], attr))}
+    return {k: v for k, v in r.items() if k != "value"}
+
+
+def run_parse(c, argv, postponed=False, then=None):
     import simple_parsing
 
     u, cls = build(c["fields"], postponed=postponed)
@@ -793,6 +799,18 @@ def run_parse(c, argv, postponed=False):
         sp.decoy(c["cfg"])   # a parser constructed later with other settings must not change this one's options
         r = sp.run_outcome(lambda: parser.parse_args(argv))
         inst = getattr(r["value"], "config") if r["o"] == "ok" else None
+        # a program that catches SystemExit and asks again: the SAME parser must take the same decision on the same
+        # command line (a rejection must not leave conversion state behind that lets the next ill-typed argv through)
+        r2 = sp.run_outcome(lambda: parser.parse_args(argv))
+        first = {"o": "ok", "fields": inst_fields(inst)} if r["o"] == "ok" else {k: v for k, v in r.items() if k != "value"}
+        second = {"o": "ok", "fields": inst_fields(getattr(r2["value"], "config"))} if r2["o"] == "ok" else \
+            {k: v for k, v in r2.items() if k != "value"}
+        if not postponed and (first["o"], first.get("code"), first.get("fields")) != (second["o"], second.get("code"), second.get("fields")):
+            first["again"] = second
+        if then is not None:
+            # ... and the valid command line this one was derived from, asked next on the same parser
+            first["then"] = _outcome(sp.run_outcome(lambda: parser.parse_args(then)))
+        return first
     if r["o"] == "ok":
         return {"o": "ok", "fields": inst_fields(inst)}
     return {k: v for k, v in r.items() if k != "value"}
@@ -899,11 +917,18 @@ def impl(case):
         return run_engine(c)
     if case["op"] == "nested.parse":
         return run_nested(c)
-    r = run_parse(c, c["argv"])
+    r = run_parse(c, c["argv"], then=c.get("valid_argv") if c.get("api") == "parser" else None)
+    if "then" in r:
+        fresh = run_parse(c, c["valid_argv"])
+        key = lambda o: (o["o"], o.get("code"), o.get("fields"))
+        if key(fresh) == key(r["then"]):
+            del r["then"]
+        else:
+            r["then"] = {"same_parser": r["then"], "fresh_parser": {k: v for k, v in fresh.items() if k != "again"}}
     # the same dataclass declared as in a module with `from __future__ import annotations` (string annotations, builtin
     # generics, `X | None`): the same types, so the same acceptance decision and the same values
     t = run_parse(c, c["argv"], postponed=True)
-    same = (t == r) if r["o"] == "ok" else (t["o"] == r["o"] and t.get("code") == r.get("code") and t.get("exc") == r.get("exc"))
+    same = (t == {k: v for k, v in r.items() if k not in ("again", "then")}) if r["o"] == "ok" else (t["o"] == r["o"] and t.get("code") == r.get("code") and t.get("exc") == r.get("exc"))
     r["postponed"] = "same" if same else t
     return r
 
@@ -996,10 +1021,18 @@ def oracle(case, obs):
         return fails
     mut = c["mutation"]
     fails = status_clauses(c["argv"], obs)
+    if "then" in obs:
+        fails.append({"clause": "valid-after-this-one",
+                      "detail": f"after argv {c['argv']} the same parser answers the valid argv {c.get('valid_argv')} with "
+                                f"{obs['then']['same_parser']}, a fresh parser with {obs['then']['fresh_parser']}"})
+    if "again" in obs:
+        fails.append({"clause": "same-decision-again",
+                      "detail": f"argv {c['argv']}: the second parse_args on the same parser gives {obs['again']}, the first gave "
+                                f"{({k: v for k, v in obs.items() if k not in ('again', 'postponed', 'then')})}"})
     if obs.get("postponed", "same") != "same":
         fails.append({"clause": "postponed-annotations",
                       "detail": f"argv {c['argv']}: declared with string annotations the dataclass gives {obs['postponed']}, "
-                                f"declared with evaluated annotations {({k: v for k, v in obs.items() if k != 'postponed'})}"})
+                                f"declared with evaluated annotations {({k: v for k, v in obs.items() if k not in ('postponed', 'again', 'then')})}"})
     if obs["o"] != "ok":
         # (a rejected CONTROL is not a C04 failure — accepting valid command lines is C02's claim; it is reported as the
         #  distribution tag `ctl:rejected`, which must stay at 0 for the mutation stream to mean anything)
